@@ -42,8 +42,9 @@ def run(pid, tier, tmp, replay):
         p = vlib.save_replay(pid, 'model_counterexample.txt', mc['out'].splitlines()[-120:])
         violations.append({'replay': p, 'why': 'stage S: a law of the decision model fails: %s' % mc['violated']})
     rank_replay = bool(replay) and '"RankCase"' in open(replay).read(4000)
+    eng_replay0 = bool(replay) and open(replay).readline().startswith('{"e":"Reset"')
     det_replay = bool(replay) and not rank_replay and open(replay).readline().startswith('{"e":"SReset"')
-    if replay and replay.endswith('.ndjson') and not det_replay and not rank_replay:
+    if replay and replay.endswith('.ndjson') and not det_replay and not rank_replay and not eng_replay0:
         cases = replay
     res_file = os.path.join(tmp, 'res.json')
     rc, errlog = vlib.run_driver('plain', 'config_replay', [cases, res_file], tmp, timeout=900)
@@ -98,6 +99,24 @@ def run(pid, tier, tmp, replay):
         seg = rej.pop('segment')
         p = vlib.save_replay(pid, 'rejected_threshold_%d.ndjson' % i, seg)
         violations.append({'replay': p, 'why': 'stage B (configured threshold): event %d of the execution: %s' % (rej['line_in_execution'], rej['first_unmatched'][:300])})
+    # arguments of plugins that are RE-CREATED after the configuration was accepted (one set of objects per cgroup
+    # matching a ruleset-level "cgroup"): every re-created object must be given the arguments as configured - an action's
+    # own "cgroup" argument is kept, only an action without one receives the matched cgroup (engine_driver + Engine_Trace)
+    eng_replay = bool(replay) and open(replay).readline().startswith('{"e":"Reset"')
+    vlib.build('plain', ['engine_driver'])
+    etrace = os.path.join(tmp, 'engine.ndjson')
+    eargs = [etrace, vlib.seed(), 80 if tier == 'quick' else 1500, 'c11']
+    if eng_replay:
+        first = json.loads(open(replay).readline())
+        eargs = [etrace, first['seed'], 1, first['profile'], first['scn']]
+    erc, eerr = vlib.run_driver('plain', 'engine_driver', eargs, tmp, timeout=900)
+    if erc != 0:
+        raise vlib.Infra('engine_driver exited with %s' % erc)
+    evalr = vlib.validate_trace('Engine_Trace.tla', 'Engine_Trace.cfg', etrace, tmp, timeout=3000)
+    for i, rej in enumerate(evalr['rejections']):
+        seg = rej.pop('segment')
+        p = vlib.save_replay(pid, 'rejected_engine_%d.ndjson' % i, seg)
+        violations.append({'replay': p, 'why': 'stage B (re-created plugin objects): event %d of the execution: %s (after %s)' % (rej['line_in_execution'], rej['first_unmatched'][:300], rej['last_matched'][:200])})
     # the real binary on malformed / invalid documents: exit status must be 0 or 1, never a signal
     exe = os.path.join(vlib.BUILD, 'plain', 'oomd')
     nbin, badbin = 0, []
@@ -116,7 +135,7 @@ def run(pid, tier, tmp, replay):
     cov = {'states': mc['distinct'], 'transitions': mc['states'],
            'traces_validated_against_impl': res['agree'], 'samples': sample,
            'cases': res['cases'], 'cases_in_catalogued_leniency_classes': sum(l['count'] for l in res['lenient']),
-           'binary_documents': nbin, 'configured_detector_executions': dval['executions'], 'configured_threshold_executions': rval['executions'], 'mc_configs': ['MC_C12_%s.cfg' % tier], 'exhaustive': True,
+           'binary_documents': nbin, 'configured_detector_executions': dval['executions'], 'configured_threshold_executions': rval['executions'], 'recreated_plugin_executions': evalr['executions'], 'mc_configs': ['MC_C12_%s.cfg' % tier], 'exhaustive': True,
            'mc_exhaustive_within_constants': bool(mc.get('completed'))}
     vlib.write_evidence(pid, tier, 'model_checking', cov, time.time() - t0, len(violations), ASSUME)
     vlib.finish(pid, violations, known)
